@@ -125,7 +125,8 @@ def name_cases(draw):
 @st.composite
 def operand_cases(draw):
     prog = draw(programs(max_ops=3))
-    extra = draw(st.sampled_from([None, None, ["transform_identity", 1], ["transform_identity", 2], ["transform_derived", 2]]))
+    extra = draw(st.sampled_from([None, None, ["transform_identity", 1], ["transform_identity", 2], ["transform_derived", 2],
+                                  ["transform_identity_existing_dim", 1], ["transform_captured_existing_dim", 1]]))
     return {"kind": "operands", "prog": prog, "extra": extra}
 
 
@@ -366,8 +367,15 @@ def run_operands(c) -> tuple[bool, list[str]]:
     if ex is not None:
         k, n = ex
         params = [(j,) for j in range(n)]
+        ones = [str(d) for d in a.nodes.dims if a.nodes.sizes[d] == 1]
+        dname = ones[0] if (ones and k.endswith("existing_dim")) else "tdim"
+        captured = a
         try:
-            if k == "transform_identity":
+            if k == "transform_identity_existing_dim":
+                res = a.transform(lambda act, j: act, params, dname)
+            elif k == "transform_captured_existing_dim":
+                res = a.map(_addk_one).transform(lambda act, j: captured, params, dname)
+            elif k == "transform_identity":
                 res = a.transform(lambda act, j: act, params, "tdim")
             else:
                 res = a.transform(lambda act, j: act.map(fluent.Payload(_addk, [fluent.Node.input_name(0), j])), params, "tdim")
@@ -383,6 +391,10 @@ def run_operands(c) -> tuple[bool, list[str]]:
 
 def _addk(x, k):
     return x + k
+
+
+def _addk_one(x):
+    return x + 1
 
 
 def shard(seed: int, cases_n: int, tier: str) -> Stats:
